@@ -260,6 +260,11 @@ func evRefreshFails() h.Event {
 	return h.Event{Label: "refresh-fails-once", Apply: func(hh *h.Hist) { hh.SlotFlags["refresh-fail"] = true }}
 }
 
+// evRefreshDown: every cloud provider refresh of the coming scan fails (the rebuilds in between succeed).
+func evRefreshDown() h.Event {
+	return h.Event{Label: "every-refresh-of-this-scan-fails", Apply: func(hh *h.Hist) { hh.SlotFlags["refresh-down"] = true }}
+}
+
 // evVanishFromStore: the Node object disappears from the API server right after the informer view
 // was taken (the scan still lists it; every call on it answers NotFound).
 func evVanishFromStore(node string) h.Event {
